@@ -341,6 +341,14 @@ static ShortInt DecodeAdr(tStrComp const* pArg, Word Mask, tAdrResult* pResult) 
                             pResult->Vals[1] = (DispAcc >> 8) & 0xff;
                             pResult->Cnt     = 2;
                             pResult->Mode    = (pResult->Mode & 1) + 12;
+                        } else if (Mask & MModGen) {
+                            /* JMPI/JSRI: the codes 1100/1101 are dsp:20[A0]/dsp:20[A1] */
+                            pResult->Type    = ModDisp20;
+                            pResult->Vals[0] = DispAcc & 0xff;
+                            pResult->Vals[1] = (DispAcc >> 8) & 0xff;
+                            pResult->Vals[2] = (DispAcc >> 16) & 0x0f;
+                            pResult->Cnt     = 3;
+                            pResult->Mode    = (pResult->Mode & 1) + 12;
                         } else if (pResult->Mode != 4) {
                             WrError(ErrNum_InvAddrMode);
                         } else {
